@@ -85,9 +85,20 @@ def rule_clamp(chk, cls):
         for p_, ix in cl_paths:
             e = p_[ix[0]]
             v_ = compact(PT.resolve(e.node.value, e.env))
-            facts = [(compact(t_), tr) for t_, tr in PT.path_facts(p_[:ix[0]])]
-            near = any(('abs(' in t_ and '<self._epsilon' in t_ and tr) or ('abs(' in t_ and '>self._epsilon' in t_ and not tr) or ('abs(' in t_ and '>=self._epsilon' in t_ and not tr) for t_, tr in facts)
-            more = any(('len(' in t_ and t_.endswith('>1') and tr) or ('len(' in t_ and t_.endswith('>=2') and tr) for t_, tr in facts)
+            def oriented(t_):
+                # (left text, operator class, right text) of a single comparison with the tolerance / the literal on the right, whichever way it is written
+                if not (isinstance(t_, ast.Compare) and len(t_.ops) == 1):
+                    return None
+                l_, op_, r_ = t_.left, type(t_.ops[0]), t_.comparators[0]
+                if isinstance(l_, ast.Constant) or compact(l_) == 'self._epsilon':
+                    l_, r_ = r_, l_
+                    op_ = {ast.Lt: ast.Gt, ast.Gt: ast.Lt, ast.LtE: ast.GtE, ast.GtE: ast.LtE}.get(op_, op_)
+                return compact(l_), op_, compact(r_)
+            facts = [(oriented(t_), tr) for t_, tr in PT.path_facts(p_[:ix[0]])]
+            facts = [(f_, tr) for f_, tr in facts if f_ is not None]
+            near = any('abs(' in f_[0] and f_[2] == 'self._epsilon' and ((f_[1] in (ast.Lt, ast.LtE) and tr) or (f_[1] in (ast.Gt, ast.GtE) and not tr)) for f_, tr in facts)
+            more = any('len(' in f_[0] and (((f_[1] is ast.Gt and f_[2] == '1') or (f_[1] is ast.GtE and f_[2] == '2')) and tr or
+                                            ((f_[1] is ast.LtE and f_[2] == '1') or (f_[1] is ast.Lt and f_[2] == '2')) and not tr) for f_, tr in facts)
             if near and more and '[1]]' in v_:
                 second = True
         loops_ = [l for l in ast.walk(dn) if isinstance(l, (ast.For, ast.While)) and any(isinstance(a_, ast.Assign) and U(a_.targets[0]) == 'self.dt' for a_ in ast.walk(l))]
